@@ -25,6 +25,9 @@ import Mathlib.Algebra.Order.Field.Rat
     rational `r`); with amplitudes `c`, `s` in ℚ[i] (`|c|² = r`, `|s|² = 1-r` checked, rejected otherwise) the
     exact unitary of the circuit, and with `n` also the Fock-specification distribution
     `|perm(U[t|n,0,…,0])|²/(n! ∏t!)` over all states `t` (Mathlib permanent) next to the leaf law `treeOcc`
+  * `{"op":"probs", …same fields as "tail"…, "ps":[[[modes],"==|<|>|<=|>=",k],…], "keep":b}` — the WHOLE tail of
+    `probs_svd` inside the model (`probsSvd`): results (normalised, heralded modes removed unless `keep`),
+    physical_perf, logical_perf
   A detector is `null`, `{"w":w|null,"max":k|null}` or `{"bs":l,"r":q}`.
 -/
 
@@ -101,9 +104,48 @@ def bscirc (j : Json) : Except String Json := do
     return Json.mkObj (base ++ [("U", rows), ("col0", col0)] ++ extra)
   | _, _ => return Json.mkObj base
 
+open PM.SimSpec (PS Cmp) in
+def parsePS (j : Json) : Except String PS := do
+  let conds ← (← j.getArr?).toList.mapM fun c => do
+    match c with
+    | .arr #[ms, op, k] =>
+      let cmp ← match (← op.getStr?) with
+        | "==" => pure Cmp.eq | "<" => pure Cmp.lt | ">" => pure Cmp.gt
+        | "<=" => pure Cmp.le | ">=" => pure Cmp.ge
+        | o => throw s!"bad operator {o}"
+      return PS.cond (← natList ms) cmp (← k.getNat?)
+    | _ => throw "bad post-selection condition"
+  match conds with
+  | [] => return .tt
+  | c :: rest => return rest.foldl (fun a b => PS.and a b) c
+
+def probsOp (j : Json) : Except String Json := do
+  let m ← optNat j "m"
+  let minP ← ratOfJson (← j.getObjVal? "minp")
+  let mp ← optNat j "minph"
+  let ds ← match j.getObjVal? "dets" with
+    | .ok .null => pure []
+    | .ok v => parseDets v
+    | .error _ => throw "missing field dets"
+  let hs ← (← arrOf j "heralds").toList.mapM fun h => do
+    match h with
+    | .arr #[a, b] => return ((← a.getNat?), (← b.getNat?))
+    | _ => throw "bad herald"
+  let dist ← (← arrOf j "dist").toList.mapM fun e => do
+    match e with
+    | .arr #[s, p] => return ((← natList s), (← ratOfJson p))
+    | _ => throw "bad dist entry"
+  let ps ← parsePS (← j.getObjVal? "ps")
+  let keep ← boolOf j "keep"
+  if !ds.isEmpty && m ≠ some ds.length then throw "AssertionError"
+  let o ← probsSvd minP dist ds mp hs ps keep
+  return Json.mkObj [("mask", toJson (useMask hs ds)), ("dist", sdistToJson o.results),
+    ("perf", ratToJson o.phys), ("logical", ratToJson o.logical)]
+
 def handleReq (j : Json) : Except String Json := do
   let op ← strOf j "op"
   if op == "bscirc" then return ← bscirc j
+  if op == "probs" then return ← probsOp j
   if op == "detect" then
     let w ← optNat j "wires"
     let mx ← optNat j "max"
